@@ -547,4 +547,123 @@ theorem Dual2.den2_mk (r : α) (vs : List String) (dl : List α) (M : List (List
     Dual2.den2 ⟨r, vs, dl, M⟩ n w = lookup2OrZero vs M n w := rfl
 end U
 
+
+/-! ### matrices by name, and equality -/
+namespace Dual2
+variable {α : Type} [CommRing α] [Div α]
+
+omit [Div α] in
+theorem den2_idx (d : Dual2 α) (h1 : d.vars.Nodup) (i j : Nat) (hi : i < d.vars.length)
+    (hj : j < d.vars.length) :
+    den2 d d.vars[i] d.vars[j] = (d.dual2.getD i []).getD j 0 := by
+  unfold Dual2.den2 lookup2OrZero
+  rw [idxOf_nodup d.vars h1 i hi, idxOf_nodup d.vars h1 j hj]
+
+omit [Div α] in
+theorem dual2_eq_map_den2 (d : Dual2 α) (h : d.WF) :
+    d.dual2 = d.vars.map (fun v => d.vars.map (fun w => den2 d v w)) := by
+  obtain ⟨h1, _, h3, h4⟩ := h
+  apply List.ext_getElem (by simp [h3])
+  intro i hi1 hi2
+  have hi : i < d.vars.length := by simpa using hi2
+  rw [List.getElem_map]
+  have hrow : (d.dual2[i]).length = d.vars.length := h4 _ (List.getElem_mem hi1)
+  apply List.ext_getElem (by simp [hrow])
+  intro j hj1 hj2
+  have hj : j < d.vars.length := by simpa using hj2
+  rw [List.getElem_map, den2_idx d h1 i j hi hj]
+  simp only [List.getD_eq_getElem?_getD, List.getElem?_eq_getElem hi1, Option.getD_some,
+    List.getElem?_eq_getElem hj1]
+
+
+omit [CommRing α] [Div α] in
+theorem flatten_inj_of_shape (k : Nat) : ∀ (m1 m2 : List (List α)),
+    (∀ r ∈ m1, r.length = k) → (∀ r ∈ m2, r.length = k) → m1.length = m2.length →
+    m1.flatten = m2.flatten → m1 = m2 := by
+  intro m1
+  induction m1 with
+  | nil => intro m2 _ _ hl _; cases m2 with
+    | nil => rfl
+    | cons _ _ => simp at hl
+  | cons r1 rs ih =>
+    intro m2 h1 h2 hl hf
+    cases m2 with
+    | nil => simp at hl
+    | cons r2 rs2 =>
+      simp only [List.flatten_cons] at hf
+      have hr : r1.length = r2.length := by
+        rw [h1 r1 List.mem_cons_self, h2 r2 List.mem_cons_self]
+      obtain ⟨e1, e2⟩ := List.append_inj hf hr
+      subst e1
+      congr 1
+      exact ih rs2 (fun r hr => h1 r (List.mem_cons_of_mem _ hr)) (fun r hr => h2 r (List.mem_cons_of_mem _ hr))
+        (by simpa using hl) e2
+
+omit [Div α] in
+/-- second-order equality treats a missing variable and zero derivatives as the same thing: two numbers
+are equal exactly when value, every first derivative by name and every (half) second derivative by pair of
+names agree -/
+theorem eq_spec [Transc α] [LawfulEqb α] (p : Bool) (a b : Dual2 α) (ha : a.WF) (hb : b.WF)
+    (hp : p = true → a.vars = b.vars) :
+    eq p a b = true ↔
+      (a.real = b.real ∧ (∀ n, den a n = den b n) ∧ ∀ n w, den2 a n w = den2 b n w) := by
+  rcases hxy : aligned p a b with ⟨x, y⟩
+  have S : AlignedSpec a b x y := by
+    have := aligned_spec p a b ha hb hp
+    rw [hxy] at this; exact this
+  unfold eq
+  by_cases hr : a.real = b.real
+  · have : Transc.eqb a.real b.real = true := (LawfulEqb.eqb_iff _ _).2 hr
+    simp only [this, Bool.not_true, Bool.false_eq_true, if_false, hxy]
+    have hl : x.dual.length = y.dual.length := by rw [S.wfx.2.1, S.wfy.2.1, S.vars_eq]
+    have hrows : x.dual2.length = y.dual2.length := by rw [S.wfx.2.2.1, S.wfy.2.2.1, S.vars_eq]
+    have hyrow : ∀ r ∈ y.dual2, r.length = x.vars.length := by
+      intro r hr'; rw [S.vars_eq]; exact S.wfy.2.2.2 r hr'
+    have hfl : x.dual2.flatten.length = y.dual2.flatten.length := by
+      have e1 : ∀ (m : List (List α)), (∀ r ∈ m, r.length = x.vars.length) →
+          m.flatten.length = m.length * x.vars.length := by
+        intro m
+        induction m with
+        | nil => intro _; simp
+        | cons r rs ih =>
+          intro h
+          rw [List.flatten_cons, List.length_append, ih (fun r' hr' => h r' (List.mem_cons_of_mem _ hr')),
+            h r List.mem_cons_self, List.length_cons]
+          ring
+      rw [e1 _ S.wfx.2.2.2, e1 _ hyrow, hrows]
+    simp only [hl, hfl, beq_self_eq_true, Bool.true_and, Bool.and_true, Bool.and_eq_true,
+      Dual.zipWith_eqb_all _ _ hl, Dual.zipWith_eqb_all _ _ hfl]
+    constructor
+    · rintro ⟨h1, h2⟩
+      have hm : x.dual2 = y.dual2 :=
+        flatten_inj_of_shape x.vars.length _ _ S.wfx.2.2.2 hyrow hrows h2
+      refine ⟨hr, fun n => ?_, fun n w => ?_⟩
+      · rw [← S.denx, ← S.deny]; unfold den; rw [h1, S.vars_eq]
+      · rw [← S.den2x, ← S.den2y]; unfold den2; rw [hm, S.vars_eq]
+    · rintro ⟨_, h1, h2⟩
+      constructor
+      · apply ext_of_lookup x.vars S.wfx.1 _ _ S.wfx.2.1 (by rw [S.wfy.2.1, S.vars_eq])
+        intro n
+        have := h1 n
+        rw [← S.denx, ← S.deny] at this
+        unfold den at this
+        rw [this, S.vars_eq]
+      · have ex := dual2_eq_map_den2 x S.wfx
+        have ey := dual2_eq_map_den2 y S.wfy
+        have : x.dual2 = y.dual2 := by
+          rw [ex, ey, ← S.vars_eq]
+          apply List.map_congr_left
+          intro v _
+          apply List.map_congr_left
+          intro w _
+          rw [S.den2x, S.den2y]; exact h2 v w
+        rw [this]
+  · have : Transc.eqb a.real b.real = false := by
+      cases h : Transc.eqb a.real b.real with
+      | false => rfl
+      | true => exact absurd ((LawfulEqb.eqb_iff _ _).1 h) hr
+    simp [this, hr]
+
+end Dual2
+
 end Rateslib
